@@ -665,7 +665,8 @@ pub fn run_stage(ctx: &Ctx, st: &mut Stats, name: &str, runs: u64) -> bool {
     }
     st.evaluations += execs;
     *st.per_driver.entry(format!("libfuzzer:{name}")).or_default() += execs;
-    st.nontrivial_direct += nontrivial;
+    // (the per-process distinct counts may overlap between processes: they are reported under
+    // `fuzz:<target>` only and not added to the check's distinct_nontrivial figure)
     if known > 0 {
         *st.known_hits.entry(format!("(libfuzzer:{name})")).or_default() += 0;
     }
